@@ -27,6 +27,7 @@ def run(cmd, cwd=None, env=None, timeout=3600):
 
 def main():
     only = None
+    merge = False
     tier = "quick"
     args = sys.argv[1:]
     while args:
@@ -35,6 +36,8 @@ def main():
             only = set(args.pop(0).split(","))
         elif a == "--tier":
             tier = args.pop(0)
+        elif a == "--merge":
+            merge = True
     sdir = os.path.join(HERE, "seeded")
     results = []
     for sid in sorted(os.listdir(sdir)):
@@ -68,7 +71,13 @@ def main():
             sys.stdout.flush()
         finally:
             shutil.rmtree(tmp, ignore_errors=True)
-    with open(os.path.join(HERE, "tools", "seeded_results.json"), "w") as fh:
+    rp = os.path.join(HERE, "tools", "seeded_results.json")
+    if merge and os.path.exists(rp):
+        old = {r["id"]: r for r in json.load(open(rp))}
+        for r in results:
+            old[r["id"]] = r
+        results = [old[k] for k in sorted(old)]
+    with open(rp, "w") as fh:
         json.dump(results, fh, indent=1)
     print("%d of %d seeded changes detected" % (sum(1 for r in results if r.get("status") == "DETECTED"), len(results)))
 
